@@ -187,7 +187,7 @@ func ZZC09ErrCopies() {
 		}
 	}
 	mut := "n := str2num " + flip + "\n"
-	sink := zzChoice("sink", 14)
+	sink := zzChoice("sink", 16)
 	var body, want string
 	show := func(decl, obs string) {
 		body = decl + mut + "print \"kept\" " + obs + " n\n"
@@ -220,6 +220,10 @@ func ZZC09ErrCopies() {
 		body = "keepa " + s.expr + "\n"
 	case 12:
 		show("c := ["+zero+"] + ["+s.expr+"]\n", "c[1]")
+	case 14: // arguments of a built-in: an earlier argument keeps its value when a later one flips err
+		body = "print \"kept\" " + s.expr + " (str2num " + flip + ")\n"
+	case 15:
+		body = "txt := sprint \"kept\" " + s.expr + " (str2num " + flip + ")\nprint txt\n"
 	case 13:
 		show("c := [["+s.expr+"]]\nd := {k:{j:"+s.expr+"}}\n", "c[0][0]")
 		body += "print \"kept\" d.k.j n\n"
